@@ -14,6 +14,7 @@ type strMeta struct {
 	Sharp    int // spec.Defect that a single classified edit introduced, or -1
 	SharpMin int // decoder levels (inclusive) for which Sharp applies
 	SharpMax int
+	SharpMetric string // the metric the classified edit touched ("-" when none)
 }
 
 type strVisitor func(w *W, s string, m *strMeta)
@@ -224,6 +225,7 @@ func sharp3(w *W, v *spec.V3, L int, toks []string, rng *rand.Rand, visit strVis
 	for i := 0; i < n; i++ {
 		name, val, _ := strings.Cut(toks[i], ":")
 		mi := spec.V3Index(name)
+		m.SharpMetric = name
 		// unknown value code -> invalid value
 		set(spec.DInvalidValue, L, spec.LEnv)
 		for _, c := range badCodes(spec.V3Metrics[mi].Codes) {
@@ -242,6 +244,7 @@ func sharp3(w *W, v *spec.V3, L int, toks []string, rng *rand.Rand, visit strVis
 			visit(w, join3(prefix, without(toks, i)), m)
 		}
 	}
+	m.SharpMetric = "-"
 	// malformed token inserted at every position -> invalid vector
 	set(spec.DInvalidVector, L, spec.LEnv)
 	for j := 0; j <= n; j++ {
@@ -270,6 +273,7 @@ func sharp3(w *W, v *spec.V3, L int, toks []string, rng *rand.Rand, visit strVis
 	for mi := spec.V3LevelEnd(L); mi < spec.N3; mi++ {
 		md := spec.V3Metrics[mi]
 		set(spec.DNotSupportMetric, L, md.Level-1)
+		m.SharpMetric = md.Name
 		t := md.Name + ":" + md.Codes[rng.IntN(len(md.Codes))]
 		for j := 0; j <= n; j++ {
 			visit(w, join3(prefix, inserted(toks, j, t)), m)
@@ -277,6 +281,7 @@ func sharp3(w *W, v *spec.V3, L int, toks []string, rng *rand.Rand, visit strVis
 	}
 	// the seed itself offered to lower decoders: its higher-level names are the single kind of defect
 	if L > spec.LBase {
+		m.SharpMetric = "-"
 		set(spec.DNotSupportMetric, spec.LBase, L-1)
 		visit(w, join3(prefix, toks), m)
 	}
@@ -350,6 +355,7 @@ func sharp2(w *W, v *spec.V2, L int, visit strVisitor) {
 	for i := 0; i < n; i++ {
 		name, val, _ := strings.Cut(toks[i], ":")
 		mi := spec.V2Index(name)
+		m.SharpMetric = name
 		set(spec.DInvalidValue, L, spec.LEnv)
 		for _, c := range badCodes(spec.V2Metrics[mi].Codes) {
 			visit(w, j2(replaced(toks, i, name+":"+c)), m)
@@ -365,6 +371,7 @@ func sharp2(w *W, v *spec.V2, L int, visit strVisitor) {
 			visit(w, j2(without(toks, i)), m)
 		}
 	}
+	m.SharpMetric = "-"
 	// incomplete groups: every way of dropping 1..k-1 members of a present group
 	dropSubsets := func(lo, hi int, d spec.Defect) {
 		k := hi - lo
